@@ -22,6 +22,7 @@ type Sink struct {
 	evals    int64
 	mu       sync.Mutex
 	maxSamp  int
+	perKey   map[string]int
 	nviol    int
 }
 
@@ -124,8 +125,12 @@ func (s *Sink) Violation(key string, detail any) {
 	s.mu.Lock()
 	defer s.mu.Unlock()
 	s.nviol++
-	if s.nviol > 200 {
-		s.counters["violations_not_listed"]++
+	if s.perKey == nil {
+		s.perKey = map[string]int{}
+	}
+	s.perKey[key]++
+	if s.perKey[key] > 5 || len(s.perKey) > 400 {
+		s.counters["violations_not_listed"]++ // same key reported already: counted, not repeated
 		return
 	}
 	s.emit(map[string]any{"t": "violation", "key": key, "detail": detail})
